@@ -325,9 +325,14 @@ def validate(calls, ops, opts, model_exe, res, keys_known, check_every_layout=Tr
                 got, status = ret.rsplit(' status=', 1)
                 if got.split(' ') != exp or status != '0':
                     res.problem('iter-vs-spec', call['idx'], op=opline, implementation=ret[:2000], spec=' '.join(exp)[:2000])
+                # the model iterator (DbIter over Merger, Coq replica) on the same script
+                mi = m.ask('e_iter %s %s' % (q, a[2]))
+                if mi != got and got.split(' ') == exp:
+                    res.problem('replica-divergence', call['idx'], op=opline, implementation=got[:2000], model_get=mi[:2000])
             elif name == 'iopen':
                 q = '-' if a[2] == '-' else '%x' % snaps[int(a[2])]
                 iters[int(a[1]) % 64] = [parse_view(m.ask('e_view %s' % q)), None]
+                m.ask('e_iopen %d %s' % (int(a[1]) % 64, q))
             elif name == 'istep':
                 res.stats['iters'] += 1
                 it = iters.get(int(a[1]) % 64)
@@ -336,8 +341,12 @@ def validate(calls, ops, opts, model_exe, res, keys_known, check_every_layout=Tr
                     got, status = ret.rsplit(' status=', 1)
                     if got.split(' ') != exp or status != '0':
                         res.problem('iter-vs-spec', call['idx'], op=opline, implementation=ret[:2000], spec=' '.join(exp)[:2000])
+                    mi = m.ask('e_istep %d %s' % (int(a[1]) % 64, a[2]))
+                    if mi != got and got.split(' ') == exp:
+                        res.problem('replica-divergence', call['idx'], op=opline, implementation=got[:2000], model_get=mi[:2000])
             elif name == 'iclose':
                 iters.pop(int(a[1]) % 64, None)
+                m.ask('e_iclose %d' % (int(a[1]) % 64))
 
             # ---- structural steps of this call
             for ed in call['edits']:
